@@ -71,3 +71,15 @@ func checkC06() *rtCheck {
 		NonTrivial: func(ex *rt.Exchange) bool { return len(ex.Auth) > 0 || ex.Case.Class == "unsecured" },
 	}
 }
+
+func checkC08() *rtCheck {
+	return &rtCheck{
+		Prop: "C08",
+		Rule: "specs from the views profile (result types with 1-3 views, nested result types with per-attribute view overrides, collections, recursive references, fixed views); per method and per defined view the stub returns (result, view) with full/random/minimal values; one response per view is relabelled at the tap with every other defined view and with undefined names. Oracle = reference projection from the spec's views. non-trivial = decided exchange of a viewed method; distinct = (feature signature, method, view, class, shape)",
+		Assume: []string{"an attribute outside the view whose Go field cannot be nil (required or defaulted primitive) counts as unset when it holds its zero value",
+			"relabelling with another DEFINED view is only required not to crash"},
+		Profiles: []string{"views"}, Specs: [2]int{24, 300}, PerMethod: [2]int{0, 0},
+		MkCases: cases.Views, Judge: oracle.C08, Floor: [2]int{60, 2000},
+		NonTrivial: func(ex *rt.Exchange) bool { return ex.StubIn != nil },
+	}
+}
